@@ -141,8 +141,9 @@ def scan_features(prog, f):
     # F6: advance
     il = ivar
     adv = None
-    for l, decl in enumerate(body.locals):
-        if decl.get("name") == "i":
+    from ..lib.cfgq import scan_offset_local
+    for l in [scan_offset_local(body)]:
+        if l is not None:
             for (b, idx, kind, payload) in body.defs().get(l, []):
                 if kind == "assign" and b in blocks:
                     e = tr.rvalue(payload)
